@@ -54,6 +54,15 @@ def write(prop, tier, seed, records, wall, violations, total, discharged, skippe
                        "symbolic tables/indices/assignments at a concrete size; bounds are the sizes n and unwind values listed per harness; "
                        "unwinding assertions are enabled, timeouts/OOM are never counted as discharged",
     }
+    try:
+        import registry as _reg
+        cov["outside_the_claim"] = _reg.OUTSIDE.get(prop, "")
+    except Exception:
+        pass
+    ns = sorted({r["n"] for r in records if isinstance(r.get("n"), int)})
+    cov["bounds"] = {"sizes_n": ns, "max_unwind": max([r.get("unwind") or 0 for r in records] + [0]),
+                     "configurations": sorted({r.get("config") for r in records if r.get("config")}),
+                     "note": "each harness fixes n (and the table type) concretely; table contents, indices, assignments and parameters are symbolic; unwinding assertions are enabled"}
     if functions:
         cov["functions_encoded"] = functions
         # keep the per-harness records compact: the union is reported once
